@@ -24,12 +24,25 @@ def fibers_at(root, depth):
     return out
 
 
-def gen_op(rng, root, depth, dflt, n, alphabet):
-    """pick one operation applicable to the current state; depth = number of ranks"""
+STRUCTURAL = ["append", "extend", "setitem", "updcoords", "clear", "updpayloads"]
+
+
+def gen_op(rng, root, depth, dflt, n, alphabet, structural=False):
+    """pick one operation applicable to the current state; depth = number of ranks.
+    Fiber-valued arguments of append / extend / __setitem__ enter the tree as *unowned* fibers (the
+    library documents that they are not copied); an empty unowned fiber carries no information about
+    its level, so operations that must create defaults below it are meaningless.  Histories are
+    therefore of two kinds: `structural` ones use fiber-valued arguments at every level together with
+    operations that never create defaults; general ones use every operation but give append / extend /
+    __setitem__ leaf-level targets only."""
     fl = fibers_at(root, depth)
+    k = rng.choice(alphabet)
+    if not structural and k in ("append", "extend", "setitem"):
+        fl = [x for x in fl if depth - x[2] == 1] or fl
+        if depth - fl[0][2] != 1:
+            k = "ref"
     path, f, lvl = rng.choice(fl)
     sub_depth = depth - lvl          # depth of the fiber `f` (1 = leaf fiber)
-    k = rng.choice(alphabet)
     c = rng.randrange(-1, n + 2)
     if k == "ref":
         ln = rng.randrange(1, depth + 1)
@@ -90,6 +103,8 @@ def gen_op(rng, root, depth, dflt, n, alphabet):
         return {"k": "updpayloads", "at": path, "add": rng.choice([0, 1, -1]), "box": rng.random() < 0.5}
     if k == "clear":
         return {"k": "clear", "at": path}
+    if structural:
+        return {"k": "updcoords", "at": path, "mul": 1, "add": rng.choice([0, 1])}
     return {"k": "ref", "p": [rng.randrange(-1, n + 1) for _ in range(depth)]}
 
 
@@ -204,8 +219,11 @@ def run_history(case, alphabet, check_mirror):
         tensor = ft.Tensor.fromFiber(rank_ids=[f"R{depth - 1 - k}" for k in range(depth)], fiber=root, default=dflt)
         root = tensor.getRoot()
     steps = []
+    structural = case.get("mode") == "structural"
+    if structural:
+        alphabet = [k for k in alphabet if k in STRUCTURAL] or STRUCTURAL
     for _ in range(case["len"]):
-        op = gen_op(rng, root, depth, dflt, n, alphabet)
+        op = gen_op(rng, root, depth, dflt, n, alphabet, structural)
         before = H.snapshot(root)
         outcome = apply_op(root, depth, dflt, op)
         after = H.snapshot(root)
